@@ -57,6 +57,12 @@ struct FnDir {
     inline_option: bool,
     /// `@@noautopred`: switch E27 off for this directive
     noautopred: bool,
+    /// E29 `@@unchain`: a `for` over mutable iterators is rendered as the loops / bindings its iterator expression stands for
+    unchain: bool,
+    /// E29: suffixes of receiver texts whose `.iter_mut()` is `Option::iter_mut` (`@@optiter .docstring`)
+    optiters: Vec<String>,
+    /// E29: text for generated loop K: ghost statements in front of it, a line `#inv`, its invariant clauses
+    genloops: HashMap<usize, String>,
     /// E28 `@@streq`: every `a == b` / `a != b` of the directive is a comparison of texts (`&str` / `String` in any mix, which
     /// Verus gives no meaning): it becomes `vx_str_eq(&(a), &(b))` / `!vx_str_eq(..)`, a stand-in with std's meaning (same characters)
     streq: bool,
@@ -335,6 +341,13 @@ fn parse_template(path: &Path, nodes: &mut Vec<Node>) {
                         }
                         "viter" => d.viter = true,
                         "noautopred" => d.noautopred = true,
+                        "unchain" => d.unchain = true,
+                        "optiter" => d.optiters.push(rest.trim().to_string()),
+                        "genloop" => {
+                            let k: usize = rest.trim().parse().unwrap_or_else(|_| die(&format!("{sctx}: @@genloop needs an ordinal")));
+                            let t = multiline(&mut i);
+                            d.genloops.insert(k, t);
+                        }
                         "streq" => d.streq = true,
                         "strslice" => d.strslice = true,
                         "inline_or_insert_with" => d.inline_entry = true,
@@ -541,6 +554,10 @@ struct Ed<'a> {
     pub dropped: Vec<(usize, usize)>,
     /// placeholders usable in `@@restmt` anchors (`$hK` -> name of parameter K of the hoisted closure)
     pub anchor_names: Vec<(String, String)>,
+    /// E29: number of loops generated so far, which `@@genloop` texts were used
+    pub genloop_idx: usize,
+    pub genloops_used: Vec<usize>,
+    pub genloop_pats: Vec<(usize, String)>,
 }
 
 impl<'a> Ed<'a> {
@@ -612,6 +629,9 @@ impl<'a> Ed<'a> {
             auto_pred_headers: 0,
             dropped: vec![],
             anchor_names: vec![],
+            genloop_idx: 0,
+            genloops_used: vec![],
+            genloop_pats: vec![],
         }
     }
     /// E22 (cont.): the body of an inlined closure is no longer a closure body, so a `return` in it would
@@ -648,6 +668,97 @@ impl<'a> Ed<'a> {
             }
         }
         out
+    }
+    /// E29: `for PAT in ITER { BODY }` where ITER is built from `&mut X` / `X.iter_mut()` (a Vec, or an Option when X ends in a
+    /// declared `@@optiter` suffix), `iter::once(E)`, `A.chain(B)` and `A.flat_map(|P| B)`: rendered by the std definitions of these
+    /// adaptors — `chain` = all of the first then all of the second (the body is repeated per part), `once(E)` = one binding,
+    /// `Option::iter_mut` = a `match`, `flat_map` = a nested loop — so that only `Vec::iter_mut` loops remain, which vstd specifies.
+    /// A `for` statement inside BODY is rendered the same way.  None = the iterator expression has another shape (left as it is).
+    fn unchain_for(&mut self, l: &syn::ExprForLoop) -> Option<String> {
+        let pat = self.src[l.pat.span().byte_range()].to_string();
+        let body = self.unchain_block(&l.body)?;
+        self.unchain_iter(&pat, &l.expr, &body)
+    }
+    fn unchain_block(&mut self, b: &syn::Block) -> Option<String> {
+        let mut out = String::new();
+        for st in &b.stmts {
+            match st {
+                syn::Stmt::Expr(syn::Expr::ForLoop(inner), _) => out.push_str(&self.unchain_for(inner)?),
+                other => out.push_str(&self.src[other.span().byte_range()]),
+            }
+            out.push('\n');
+        }
+        Some(out)
+    }
+    fn unchain_iter(&mut self, pat: &str, e: &syn::Expr, body: &str) -> Option<String> {
+        match e {
+            syn::Expr::Paren(p) => self.unchain_iter(pat, &p.expr, body),
+            // `&mut X`
+            syn::Expr::Reference(r) if r.mutability.is_some() => {
+                let recv = self.src[r.expr.span().byte_range()].to_string();
+                Some(self.unchain_vec_loop(pat, &recv, body))
+            }
+            syn::Expr::Call(c) => {
+                let f = self.src[c.func.span().byte_range()].to_string();
+                if (f == "iter::once" || f == "std::iter::once" || f == "once") && c.args.len() == 1 {
+                    let x = &self.src[c.args[0].span().byte_range()];
+                    return Some(format!("{{ let {pat} = {x};\n{body} }}\n"));
+                }
+                None
+            }
+            syn::Expr::MethodCall(m) => {
+                let name = m.method.to_string();
+                if name == "iter_mut" && m.args.is_empty() {
+                    let recv = self.src[m.receiver.span().byte_range()].to_string();
+                    if self.dir.optiters.iter().any(|sfx| recv.ends_with(sfx.as_str())) {
+                        return Some(format!("match &mut {recv} {{ Some({pat}) => {{ {body} }} None => {{}} }}\n"));
+                    }
+                    return Some(self.unchain_vec_loop(pat, &recv, body));
+                }
+                if name == "chain" && m.args.len() == 1 {
+                    let a = self.unchain_iter(pat, &m.receiver, body)?;
+                    let b = self.unchain_iter(pat, &m.args[0], body)?;
+                    return Some(format!("{a}{b}"));
+                }
+                if name == "flat_map" && m.args.len() == 1 {
+                    if let syn::Expr::Closure(c) = &m.args[0] {
+                        if c.inputs.len() == 1 {
+                            let p = self.src[c.inputs[0].span().byte_range()].to_string();
+                            // the closure body is the inner iterator expression (possibly in a block of one expression)
+                            let inner_e: &syn::Expr = match &*c.body {
+                                syn::Expr::Block(b) if b.block.stmts.len() == 1 => match &b.block.stmts[0] { syn::Stmt::Expr(e, None) => e, _ => return None },
+                                other => other,
+                            };
+                            let inner = self.unchain_iter(pat, inner_e, body)?;
+                            return self.unchain_iter(&p, &m.receiver, &inner);
+                        }
+                    }
+                }
+                None
+            }
+            _ => None,
+        }
+    }
+    fn unchain_vec_loop(&mut self, pat: &str, recv: &str, body: &str) -> String {
+        let k = self.genloop_idx;
+        self.genloop_idx += 1;
+        let (pre, inv) = match self.dir.genloops.get(&k) {
+            Some(t) => {
+                self.genloops_used.push(k);
+                match t.split_once("#inv") { Some((a, b)) => (a.to_string(), b.to_string()), None => (String::new(), t.clone()) }
+            }
+            None => (String::new(), String::new()),
+        };
+        // `$frecv` = the receiver as it finally is (`final(t).rows` for `t.rows`, `final(r)` for `r`); `$patJ` = the pattern of
+        // generated loop J; `$pat#` = this loop's own pattern; `$it` / `$g` = its iterator / ghost iterator
+        let frecv = match recv.split_once('.') { Some((h, rest)) => format!("final({h}).{rest}"), None => format!("final({recv})") };
+        self.genloop_pats.push((k, pat.to_string()));
+        let pre = pre.replace("$it", &format!("vx_it{k}")).replace("$frecv", &frecv);
+        let inv = inv.replace("$it", &format!("vx_it{k}")).replace("$frecv", &frecv).replace("$g", &format!("vx_g{k}"));
+        // (`$patJ` is filled in when the whole statement has been rendered: enclosing loops are rendered last)
+        let pre = pre.replace("$pat#", pat);
+        let inv = inv.replace("$pat#", pat);
+        format!("{{ let vx_it{k} = {recv}.iter_mut();\n{pre}\nfor {pat} in vx_g{k}: vx_it{k}\n{inv}\n{{\n{body}}}\n}}\n")
     }
     fn push(&mut self, start: usize, end: usize, text: impl Into<String>, kind: &'static str, swallow: bool) {
         self.edits.push(Edit { start, end, text: text.into(), kind, swallow });
@@ -1478,6 +1589,19 @@ impl<'a, 'ast> Visit<'ast> for Ed<'a> {
         }
     }
     fn visit_expr_for_loop(&mut self, l: &'ast syn::ExprForLoop) {
+        // E29: the whole loop is replaced by its rendering (nested loops included); nothing inside is visited
+        if self.dir.unchain {
+            if let Some(mut text) = self.unchain_for(l) {
+                // generated loops are numbered from the innermost outwards
+                let pats = self.genloop_pats.clone();
+                for (j, pj) in pats.iter().rev() {
+                    text = text.replace(&format!("$pat{j}"), pj);
+                }
+                let r = l.span().byte_range();
+                self.push(r.start, r.end, text, "E29-for-over-mutable-iterators-unchained", true);
+                return;
+            }
+        }
         let idx = self.loop_idx;
         self.loop_idx += 1;
         if let syn::Pat::Ident(pi) = &*l.pat {
@@ -2913,6 +3037,11 @@ fn check_used(ed: &Ed, d: &FnDir, ctx: &str) {
     for (k, (a, _)) in d.befores.iter().enumerate() {
         if !ed.befores_used[k] {
             die(&format!("{ctx}: @@before anchor not found: {a}"));
+        }
+    }
+    for k in d.genloops.keys() {
+        if !ed.genloops_used.contains(k) {
+            die(&format!("{ctx}: @@genloop {k}: no such generated loop any more ({} loops generated)", ed.genloop_idx));
         }
     }
     for (k, (a, _)) in d.restmts.iter().enumerate() {
